@@ -626,9 +626,7 @@ theorem C17_statement_illformed_rule_witness : ¬ C17_translation_sound_complete
   revert this
   decide +kernel
 
-/-- **full statement, with the missing hypothesis (open).**  As
-    `C17_translation_sound_complete_statement`, for grammars whose rules are well-formed
-    (`Rule.wf`: all variables of a rule are below its `nv`). -/
+/-- the open statement with the hypothesis `Rule.wf` added — still FALSE, see the next witness -/
 def C17_translation_sound_complete_wf_statement : Prop :=
   ∀ (cfg : Cfg) (gr : Grammar) (q l r : Term) (b : Body) (n : Nat),
     cfg.engine = false → Body.ofTerm q = .ok b → (∀ ru ∈ gr, clash ru.name ru.args.length = false) →
@@ -641,5 +639,113 @@ def C17_translation_sound_complete_wf_statement : Prop :=
       Grammar.phrase cfg gr n b st0 l r = .ok D →
       (∀ o ∈ projected cfg.uf tmpl A.answers ++ projected cfg.uf tmpl D, o.isSome) →
       projected cfg.uf tmpl A.answers = projected cfg.uf tmpl D
+
+/-- **the hypothesis `clash` of the open statement misses `phrase`//1** (and is otherwise too
+    coarse: `special`).  With the well-formed rules
+        phrase(X) --> [].        x --> [x].
+    the body `call(phrase, x)` on `[x]`: the translation calls `phrase(x, [x], S)`, which is
+    phrase/3 — it parses `x` and leaves `[]`; the denotation takes `phrase`//1 for the user's
+    non-terminal and leaves `[x]`.  Both succeed, with different remainders.  On a real system the
+    rule `phrase(X) --> []` would be a clause for the built-in phrase/3 (a permission error), so
+    this is a gap of the statement's side condition (and of the denotation, which should not look
+    up a rule named like a built-in), not of engine/dcg.go. -/
+theorem C17_wf_statement_phrase_rule_witness : ¬ C17_translation_sound_complete_wf_statement := by
+  intro h
+  let gr : Grammar :=
+    [ { name := "phrase", args := [.var 0], pushback := none, body := .eps, nv := 1 },
+      { name := "x", args := [], pushback := none, body := .terminals [.atom "x"], nv := 0 } ]
+  have hA : solve 256 (programOf gr) 8
+      ((Body.nt "call" [.atom "phrase", .atom "x"]).tr (Term.list [.atom "x"]) (.var 0) 1).1 ⟨[], 1⟩ =
+      .ok ⟨[⟨[(3, Term.nilT), (0, .var 3), (1, Term.list [.atom "x"])], 4⟩], false⟩ := by
+    decide +kernel
+  have hD : Grammar.phrase {} gr 8 (.nt "call" [.atom "phrase", .atom "x"]) ⟨[], 1⟩ (Term.list [.atom "x"]) (.var 0) =
+      .ok [⟨[(0, Term.list [.atom "x"]), (1, .atom "x")], 2⟩] := by
+    decide +kernel
+  have := h {} gr (Term.mk "call" [.atom "phrase", .atom "x"]) (Term.list [.atom "x"]) (.var 0)
+    (.nt "call" [.atom "phrase", .atom "x"]) 8 rfl (by decide +kernel) (by decide +kernel) (by decide +kernel)
+    _ _ hA hD (by decide +kernel)
+  revert this
+  decide +kernel
+
+/-- **full statement, corrected.**  The open statement with its side conditions repaired:
+    rules are well-formed (`Rule.wf`: the variables of a rule are below its `nv`), no rule is named
+    like a control construct or built-in of the reference evaluation at the arity the translation
+    gives it (`special`: `'='`//0, `','`//0, …, `call`//N, `phrase`//1 — instead of `clash`), and
+    rule bodies are as the reader delivers them (`Body.ok false`: an alternation never has a bare
+    if-then as its first branch, `( c -> t ; e )` is an if-then-else).  Every rule read by
+    `Rule.ofTerm` satisfies the first and the third (`C17_read_rules_wellformed`).  The hypothesis
+    that the answers can be printed is not needed. -/
+def C17_translation_sound_complete_corrected_statement : Prop :=
+  ∀ (cfg : Cfg) (gr : Grammar) (q l r : Term) (b : Body) (n : Nat),
+    cfg.engine = false → Body.ofTerm q = .ok b →
+    (∀ ru ∈ gr, special ru.name ru.args.length = false ∧ ru.wf = true ∧ ru.body.ok false = true) →
+    let k := max (boundT q) (max (boundT l) (boundT r))
+    let st0 : St := { σ := [], next := k }
+    let g := b.tr l r k
+    let tmpl := Term.mk "t" [q, l, r]
+    ∀ A D, solve cfg.uf (programOf gr) n g.1 { st0 with next := g.2 } = .ok A →
+      Grammar.phrase cfg gr n b st0 l r = .ok D →
+      projected cfg.uf tmpl A.answers = projected cfg.uf tmpl D
+
+/-- **C17_translation_sound_complete (stage E: the full statement, corrected, PROVED).**  For
+    EVERY grammar (side conditions above), EVERY body the reader delivers — terminals with variables,
+    non-terminals with arguments, `,`, `;`, `|`, if-then(-else), `\\+`, `!`, `{G}` with any `G`,
+    call//N with any closure, call//1, phrase//1, variable bodies, push-back —, EVERY input `l` and
+    EVERY third argument `r` (recognition, parsing with a remainder, generation, partial lists,
+    shared variables), every fuel: whenever the reference SLD evaluation (ISO cut semantics) of the
+    TRANSLATED body in the TRANSLATED grammar and phrase/3 of the specification both give a result,
+    they have the same answers — the same bindings of all variables of `q`, `l`, `r` up to
+    renaming of the variables that are left — in the same order.
+
+    Where the denotation does not cover a construct (a goal in `{}` outside true, fail, `!`, `=`,
+    `\\=`, `==`, `\\==`, `,`; a non-terminal named like a control construct; a body that is not
+    callable at run time) it gives up when it reaches it, and the statement is vacuous for that
+    query — as the open statement intended.  call//1 costs the SLD side one level of fuel more than
+    the denotation (`solve_mono` bridges it). -/
+theorem C17_translation_sound_complete_corrected : C17_translation_sound_complete_corrected_statement := by
+  intro cfg gr q l r b n hiso hq hgr k st0 g tmpl A D hA hD
+  have hg2 : g.2 = k + b.nhid := tr_next b l r k
+  have hA' : solve cfg.uf (programOf gr) n (b.tr l r k).1 ⟨[], k + b.nhid⟩ = .ok A := by
+    rw [← hA]
+    show _ = solve cfg.uf (programOf gr) n (b.tr l r k).1 ⟨[], g.2⟩
+    rw [hg2]
+  exact phrase_agreesX cfg hiso gr (fun ru hru => ⟨(hgr ru hru).1, (hgr ru hru).2.2, (hgr ru hru).2.1⟩) q l r b hq
+    (ofTerm_ok q b hq) k
+    (by omega) (by omega) (by omega) n A D hA' hD
+
+/-- non-vacuity of the corrected statement: `t([Z])` with `t(B) --> call(a), phrase(b), B.` against
+    `[x, y, z]` and the third argument `[]` (recognition): both sides succeed with the one answer
+    Z = z -/
+example :
+    let q := Term.mk "t" [Term.list [.var 0]]
+    let b := Body.nt "t" [Term.list [.var 0]]
+    let l := Term.list [.atom "x", .atom "y", .atom "z"]
+    Body.ofTerm q = .ok b ∧
+    (∀ ru ∈ exampleGrammarE, special ru.name ru.args.length = false ∧ ru.wf = true ∧ ru.body.ok false = true) ∧
+    (solve 256 (programOf exampleGrammarE) 8 (b.tr l Term.nilT 1).1 ⟨[], 1⟩).map
+        (fun o => projected 256 (Term.mk "t" [q, l, Term.nilT]) o.answers) =
+      .ok [some (Term.mk "t" [Term.mk "t" [Term.list [.atom "z"]], l, Term.nilT])] ∧
+    (Grammar.phrase {} exampleGrammarE 8 b ⟨[], 1⟩ l Term.nilT).map
+        (fun o => projected 256 (Term.mk "t" [q, l, Term.nilT]) o) =
+      .ok [some (Term.mk "t" [Term.mk "t" [Term.list [.atom "z"]], l, Term.nilT])] := by
+  decide +kernel
+
+/-- every rule the reader delivers satisfies the side conditions `Rule.wf` and `Body.ok false` -/
+theorem C17_read_rules_wellformed (rt : Term) (r : Rule) (h : Rule.ofTerm rt = .ok r) :
+    r.wf = true ∧ r.body.ok false = true :=
+  ofTerm_rule_wf rt r h
+
+/-! ### what is left
+
+  * `cfg.engine = true` (the engine's cut barriers for nested `;`/`->`, finding C17-K1): the
+    reference SLD evaluation has ISO cut semantics only; not part of the open statement either.
+  * "Both sides give no result, or both succeed" (the strict shape of stages A–C) is proved for the
+    fragment of stage C with closures known at translation time; beyond it the two evaluators give
+    up at different points (the denotation on constructs it does not cover, the SLD side one level
+    of fuel earlier in call//1, and it needs more unification fuel), so only "whenever both
+    succeed they agree" can hold — `C17_sld_needs_more_unification_fuel_witness`.
+  * The VM that executes the translated clauses is not the reference SLD evaluation (C01/C03; the
+    stream c17.lang observes it).
+-/
 
 end PrologVerif.C17
